@@ -54,6 +54,17 @@ def deep_digest(obj, h, depth=0, seen=None):
     seen.discard(id(obj))
 
 
+def _norm_key(x):
+    """a cache key without its time stamps / sizes, whatever its shape: strings, booleans and small integers (widths) are kept"""
+    if isinstance(x, (tuple, list)):
+        return tuple(_norm_key(y) for y in x)
+    if isinstance(x, (str, bool)):
+        return x
+    if isinstance(x, int):
+        return x if abs(x) < 4096 else "#"
+    return "#"
+
+
 def main():
     hist_path, out_path = sys.argv[1:3]
     spec = json.load(open(hist_path))
@@ -81,6 +92,11 @@ def main():
         elif c["mode"] == "explicit":
             files = list(get_stl_paths()) + [prog]
             use_stl = False
+        elif c["mode"] == "partial":
+            # ONE library file in front of the program, without runlib.fj: it parses with warnings (labels it expects from
+            # the rest of the library), so the two warning modes have different outcomes for the same files and width
+            files = [x for x in get_stl_paths() if str(x).replace("\\", "/").endswith("bit/memory.fj")] + [prog]
+            use_stl = False
         digest = None
         try:
             with contextlib.redirect_stdout(io.StringIO()):
@@ -100,7 +116,7 @@ def main():
         keys, snaps = [], []
         for k, v in fj_parser._stl_prefix_cache.items():
             # the key without the time stamps: every string component (short names, paths) of every file entry
-            kh = hashlib.sha256(repr((k[0], k[1], tuple(tuple(x for x in f if isinstance(x, str)) for f in k[2]))).encode()).hexdigest()[:16]
+            kh = hashlib.sha256(repr(_norm_key(k)).encode()).hexdigest()[:16]
             h = hashlib.sha256()
             # digest exactly what a cache hit restores: the consts, every macro but the main one, the main macro's
             # header and the separately saved list of its top-level ops (the cached main Macro object's own ops list
